@@ -309,11 +309,26 @@ def infer_with_order(prog, phase_order, stmt_orders):
         stmts = [build_stmt(s, "%s_%d" % (n, j)) for j, s in enumerate(prog["phases"][n])]
         phases.append([stmts[i] for i in stmt_orders[n]])
     buf = io.StringIO()
-    with contextlib.redirect_stdout(buf):
-        try:
-            tbl = SymbolKindFinder(registry())(names, phases)
-        except Exception as e:  # noqa
-            return ("err", type(e).__name__, "trying to derive 'kind'" in buf.getvalue())
+    import signal
+
+    class _Hang(BaseException):
+        pass
+
+    def _alarm(signum, frame):
+        raise _Hang()
+    old = signal.signal(signal.SIGALRM, _alarm)
+    signal.setitimer(signal.ITIMER_REAL, 5)
+    try:
+        with contextlib.redirect_stdout(buf):
+            try:
+                tbl = SymbolKindFinder(registry())(names, phases)
+            except _Hang:
+                return ("err", "inference does not terminate within 5 s", False)
+            except Exception as e:  # noqa
+                return ("err", type(e).__name__, "trying to derive 'kind'" in buf.getvalue())
+    finally:
+        signal.setitimer(signal.ITIMER_REAL, 0)
+        signal.signal(signal.SIGALRM, old)
     return ("ok", table_snapshot(tbl), "trying to derive 'kind'" in buf.getvalue())
 
 
@@ -326,6 +341,8 @@ def harness_infer(prog):
             o, _ = symbolic_sort(prog["phases"][n], "st_" + n)
             sorders[n] = o
         r = infer_with_order(prog, porder, sorders)
+        if "does not terminate" in str(r[1]):
+            ex.abort_all = True      # one witness is enough; every further order would cost another 5 s
         return {"phase_order": porder, "stmt_orders": sorders, "result": r}
     return h
 
@@ -349,6 +366,13 @@ def work_infer(item):
             if r["result"][:2] != base["result"][:2]:
                 bad = r
                 break
+        if bad is None:
+            # an inference that does not terminate (on every order) produces no table at all
+            for trail, r in res:
+                if "does not terminate" in str(r["result"][1]):
+                    bad = r
+                    base = {"phase_order": r["phase_order"], "stmt_orders": r["stmt_orders"], "result": ("ok", "a table")}
+                    break
         if bad is None:
             stats.discharged += 1
         else:
@@ -433,7 +457,8 @@ def replay(d):
     oa, ob = d["order_a"], d["order_b"]
     ra = infer_with_order(prog, oa["phase_order"], {k: v for k, v in oa["stmt_orders"].items()})
     rb = infer_with_order(prog, ob["phase_order"], {k: v for k, v in ob["stmt_orders"].items()})
-    return {"reproduced": ra[:2] != rb[:2], "unification_failure_printed": bool(ra[2] or rb[2]),
+    hang = "does not terminate" in str(ra[1]) or "does not terminate" in str(rb[1])
+    return {"reproduced": ra[:2] != rb[:2] or hang, "unification_failure_printed": bool(ra[2] or rb[2]),
             "detail": "program %s: order %s gives %s; order %s gives %s" % (prog["name"], oa, ra[:2], ob, rb[:2])}
 
 
